@@ -9,6 +9,9 @@ resolution (`implResolve`) and Nix's scoping (`specResolve`) agree, and the code
   two fuels are independent, so no monotonicity of fuel is needed).
 * Lemma T (`resolveId_terminates`): every recursive call visits a new item of the chain.
 * `nav_agree`: walking by keys keeps the store and the spec's environment related (`NavRel`).
+* `sameName_of_bare`, `findBindKey_eq_findBind`, `getitemSet_bare`: `AttributeSet.__getitem__` compares
+  what key and name token denote (`sameName`); on the bare keys and bare names of the fragment that
+  is the comparison by spelling, so the traversal lemmas work with `getitemSetSpelled`.
 -/
 namespace Nima.Scope
 open Nima
